@@ -6591,6 +6591,50 @@ class NetCDFRead(IORead):
     def _parse_cell_methods(self, cell_methods_string, field_ncvar=None):
         """Parse a CF cell_methods string.
 
+        As `_parse_cell_methods_tokens`, except that a string which
+        ends where a further token is required (such as
+        ``'time: mean (interval: 1 hour'``) is treated as incorrectly
+        formatted: it is reported and an empty list is returned (or
+        else a `ValueError` is raised if *field_ncvar* is not set).
+
+        .. versionadded:: (cfdm) 1.7.0
+
+        :Parameters:
+
+            cell_methods_string: `str`
+                A CF cell methods string.
+
+            field_ncvar: `str`, optional
+                The netCDF name of the data variable that contains the
+                cell methods.
+
+        :Returns:
+
+            `list` of `dict`
+
+        """
+        try:
+            return self._parse_cell_methods_tokens(
+                cell_methods_string, field_ncvar
+            )
+        except IndexError:
+            message = ("cell_methods attribute", "is incorrectly formatted")
+            if not field_ncvar:
+                raise ValueError(message)
+
+            self._add_message(
+                field_ncvar,
+                field_ncvar,
+                message=message,
+                attribute={field_ncvar + ":cell_methods": cell_methods_string},
+            )
+            return []
+
+    def _parse_cell_methods_tokens(
+        self, cell_methods_string, field_ncvar=None
+    ):
+        """Parse a CF cell_methods string.
+
         .. versionadded:: (cfdm) 1.7.0
 
         :Parameters:
